@@ -333,6 +333,23 @@ func (g *genCtx) gen(t *rapid.T, depth int) *Schema {
 			s = g.genSum(t, depth)
 		case k == 9 && g.opt.Refs && len(g.compList) > 0:
 			return &Schema{Ref: rapid.SampledFrom(g.compList).Draw(t, "ref")}
+		case k == 10 && g.opt.AllOf && g.opt.Validators && rapid.IntRange(0, 2).Draw(t, "numeric-allof") == 0:
+			// a schema that narrows the bounds of the schema it extends: two members of one numeric type,
+			// each with its own (possibly exclusive) bounds; the conjunction decides
+			typ := rapid.SampledFrom([]string{"integer", "integer", "number"}).Draw(t, "naotype")
+			member := func(label string) *Schema {
+				m := &Schema{Type: typ}
+				lo := rapid.IntRange(-3, 6).Draw(t, label+"lo")
+				hi := lo + rapid.IntRange(2, 9).Draw(t, label+"span")
+				if rapid.IntRange(0, 3).Draw(t, label+"hasmin") > 0 {
+					m.Min, m.ExclMin = fmt.Sprint(lo), rapid.Bool().Draw(t, label+"exclmin")
+				}
+				if rapid.IntRange(0, 3).Draw(t, label+"hasmax") > 0 {
+					m.Max, m.ExclMax = fmt.Sprint(hi), rapid.Bool().Draw(t, label+"exclmax")
+				}
+				return m
+			}
+			s = &Schema{AllOf: []*Schema{member("a"), member("b")}}
 		case k == 10 && g.opt.AllOf:
 			a := g.genObject(t, depth+1)
 			b := g.genObject(t, depth+1)
